@@ -193,7 +193,10 @@ fn main() {
         if let Obs::Panic(p) = &obs {
             out.fail(i, &human, &format!("the engine panicked: {}", p), None);
         } else if let Some(d) = direct_predicates(g, &q, &obs) {
-            out.fail(i, &human, &d, None);
+            // a variable-length pattern answers reachability, not trails (known finding):
+            // its end node is bound without the pattern's checks
+            let known = if feats.contains("var_length") { Some("varlen_reachability") } else { None };
+            out.fail(i, &human, &d, known);
         }
     }
     replay_known(&mut out);
